@@ -61,6 +61,14 @@ CHECKS = {
              'list index) is attributed by a counterfactual re-run without those operators.',
         note='!prev destinations fresh or scalar; !append in a first document not generated.',
         design='4/C16'),
+    'C17': dict(
+        technique='model-based property testing (Hypothesis): generated operation histories applied to node containers and to plain python dict/list, whole-tree invariants after every step',
+        text='Histories of up to 25 public container operations (all mutators of mappings and lists, in/out-of-range and negative indices, '
+             'existing/new/underscore keys, nested values) on interpretively addressed containers of a random tree; after every step both views '
+             'of every container agree in keys, order and identity, list children are numbered 0..n-1, content equals the model, every walked '
+             'node is found again by its path, paths round-trip through text, evaluation order equals the model; model errors must be node errors.',
+        note='Plain-data values only (no node shared between two places); rename_child on mappings only.',
+        design='4/C17'),
     'C15': dict(
         technique='property-based metamorphic testing (Hypothesis): five relations (determinism, idempotence, empty-neutral, key permutation, flag-neutral) per generated sequence',
         text='Each generated sequence over priority/!del/!merge tags is rebuilt twice, with the last document repeated, with {} inserted at every '
